@@ -975,7 +975,7 @@ impl TCase {
         for (c, x) in &self.codes {
             v.extend([*c, *x]);
         }
-        format!("T {} | {}", join(&v), self.text)
+        format!("T {} | {}", join(&v), esc(&self.text))
     }
     fn decode(s: &str) -> TCase {
         let (ints, text) = s.split_once(" | ").or_else(|| s.split_once(" |").map(|(a, _)| (a, ""))).expect("T case has a | separator");
@@ -992,8 +992,44 @@ impl TCase {
         let xspace_skip = [nx(), nx(), nx(), nx(), nx()];
         let n = nx();
         let codes = (0..n).map(|_| (nx(), nx())).collect();
-        TCase { hyph, c, space_skip, xspace_skip, codes, text: text.to_string() }
+        TCase { hyph, c, space_skip, xspace_skip, codes, text: unesc(text) }
     }
+}
+
+/// Texts in case lines: every blank other than the space character (and the backslash) is written as an
+/// escape, so that a case stays one ASCII line.
+fn esc(t: &str) -> String {
+    let mut o = String::new();
+    for c in t.chars() {
+        match c {
+            '\\' => o.push_str("\\\\"),
+            '\n' => o.push_str("\\n"),
+            '\r' => o.push_str("\\r"),
+            '\t' => o.push_str("\\t"),
+            '\x0c' => o.push_str("\\f"),
+            c => o.push(c),
+        }
+    }
+    o
+}
+fn unesc(t: &str) -> String {
+    let mut o = String::new();
+    let mut it = t.chars();
+    while let Some(c) = it.next() {
+        if c == '\\' {
+            match it.next() {
+                Some('n') => o.push('\n'),
+                Some('r') => o.push('\r'),
+                Some('t') => o.push('\t'),
+                Some('f') => o.push('\x0c'),
+                Some(d) => o.push(d),
+                None => o.push('\\'),
+            }
+        } else {
+            o.push(c);
+        }
+    }
+    o
 }
 
 fn plain_codes() -> Vec<(i64, i64)> {
@@ -1008,16 +1044,25 @@ const WORDS: &[&str] = &[
     "supercalifragilistic", "macro", "algorithm", "table", "record", "present", "VA", "Ay", "fj", "f'", "f!", "?`", "!`", "-", "--", "a-", "-b",
 ];
 
+/// A run of blanks: mostly one space, otherwise 1–3 characters drawn from all of ASCII white space.
+fn gen_blank(rng: &mut Rng) -> String {
+    if rng.chance(3, 5) {
+        return " ".into();
+    }
+    let n = 1 + rng.below(3);
+    (0..n).map(|_| *rng.pick(&[' ', '\t', '\n', '\r', '\x0c', ' ', '\t'])).collect()
+}
+
 fn gen_text(rng: &mut Rng) -> String {
     let cap = if rng.chance(1, 4) { 40 } else { 14 };
     let n = 1 + rng.below(cap) as usize;
     let mut s = String::new();
-    if rng.chance(1, 8) {
-        s.push(' ');
+    if rng.chance(1, 5) {
+        s.push_str(&gen_blank(rng));
     }
     for k in 0..n {
         if k > 0 {
-            s.push_str(*rng.pick(&[" ", " ", " ", " ", "  ", "\t"]));
+            s.push_str(&gen_blank(rng));
         }
         if rng.chance(1, 6) {
             // a random word over cmr10's printable characters
@@ -1032,8 +1077,15 @@ fn gen_text(rng: &mut Rng) -> String {
             s.push_str(*rng.pick(WORDS));
         }
     }
-    if rng.chance(1, 8) {
-        s.push(' ');
+    if rng.chance(1, 5) {
+        s.push_str(&gen_blank(rng));
+    }
+    // a chunk of a longer text: cut at an arbitrary point (inside a word or inside a run of blanks)
+    if rng.chance(1, 4) {
+        let chars: Vec<char> = s.chars().collect();
+        let a = rng.below(chars.len() as u64 + 1) as usize;
+        let b = a + rng.below((chars.len() - a) as u64 + 1) as usize;
+        s = if rng.chance(1, 2) { chars[a..].iter().collect() } else { chars[a..b].iter().collect() };
     }
     s
 }
@@ -1338,6 +1390,16 @@ impl C12 {
             out.nontrivial = rb.bps.len() >= 2;
             return out;
         }
+        // The glue setting of the line boxes is not part of this property (C15) and very large ratios do not
+        // parse back (`glue_ratio="20000.0"` is rejected by the Box language, C18's territory): neutralise them.
+        let stdout: String = stdout
+            .lines()
+            .map(|l| match l.find("glue_ratio=\"") {
+                Some(i) => format!("{}glue_ratio=\"0.0\",", &l[..i]),
+                None => l.to_string(),
+            })
+            .collect::<Vec<_>>()
+            .join("\n");
         let parsed = match boxworks::lang::parse_horizontal_list(&stdout) {
             Ok(p) => p,
             Err(_) => {
@@ -1871,7 +1933,7 @@ impl Property for C12 {
             let t = TCase { hyph: r.chance(1, 2), c, space_skip: sk(&mut r), xspace_skip: sk(&mut r), codes, text: gen_text(&mut r) };
             if r.chance(1, 4) {
                 // the same preprocessor has already typeset a paragraph (ending in any space-factor class)
-                let prev = format!("{} {}", gen_text(&mut r).trim(), *r.pick(&["end.", "why?", "thus:", "here;", "well,", "NASA", "B)", "so"]));
+                let prev = esc(&format!("{} {}", gen_text(&mut r).trim(), *r.pick(&["end.", "why?", "thus:", "here;", "well,", "NASA", "B)", "so"])));
                 let e = t.encode();
                 let (ints, text) = e[2..].split_once(" | ").unwrap_or((&e[2..], ""));
                 v.push(format!("P {ints} | {prev} | {text}"));
@@ -1912,10 +1974,10 @@ impl Property for C12 {
                     _ => *r.pick(&[[0, 131072, 0, 0, 0], [218430, 0, 0, 0, 0], [0, 0, 0, 65536, 0]]),
                 }
             };
-            let t = TCase { hyph: true, c, space_skip: sk(&mut r), xspace_skip: sk(&mut r), codes: plain_codes(), text: gen_text(&mut r).replace('\t', " ") };
+            let t = TCase { hyph: true, c, space_skip: sk(&mut r), xspace_skip: sk(&mut r), codes: plain_codes(), text: gen_text(&mut r) };
             let e = t.encode();
             if r.chance(1, 3) && !t.text.trim().is_empty() {
-                let prev = format!("{} {}", gen_text(&mut r).replace('\t', " ").trim(), *r.pick(&["end.", "why?", "thus:", "here;", "NASA", "so"]));
+                let prev = esc(&format!("{} {}", gen_text(&mut r).trim(), *r.pick(&["end.", "why?", "thus:", "here;", "NASA", "so"])).replace(['\n', '\r'], " "));
                 let (ints, text) = e[2..].split_once(" | ").unwrap_or((&e[2..], ""));
                 v.push(format!("B {ints} | {prev} | {text}"));
             } else {
@@ -1934,13 +1996,21 @@ impl Property for C12 {
             // `P <ints> | <previous paragraph> | <text>`
             let (ints, texts) = rest.split_once(" | ").expect("P case has | separators");
             let (prev, text) = texts.split_once(" | ").unwrap_or((texts, ""));
-            self.run_t(&format!("{ints} | {text}"), Some(prev), drv)
+            self.run_t(&format!("{ints} | {text}"), Some(&unesc(prev)), drv)
         } else if let Some(rest) = case.strip_prefix("B ") {
             // `B <ints> | <text>` or `B <ints> | <previous paragraph> | <text>` (both through --texts-file)
             let (ints, texts) = rest.split_once(" | ").unwrap_or((rest, ""));
             match texts.split_once(" | ") {
-                Some((prev, text)) if !prev.trim().is_empty() && !text.is_empty() && !text.contains('\n') => self.run_b(&format!("{ints} | {text}"), Some(prev), drv),
-                _ => self.run_b(rest, None, drv),
+                // (a texts file has one paragraph per line: only texts without line ends go that way)
+                Some((prev, text)) => {
+                    let (p, t) = (unesc(prev), unesc(text));
+                    if !p.trim().is_empty() && !t.is_empty() && !t.contains(['\n', '\r']) && !p.contains(['\n', '\r']) {
+                        self.run_b(&format!("{ints} | {text}"), Some(&p), drv)
+                    } else {
+                        self.run_b(&format!("{ints} | {text}"), None, drv)
+                    }
+                }
+                None => self.run_b(rest, None, drv),
             }
         } else if case == "D" {
             self.run_d(drv)
@@ -2050,6 +2120,19 @@ impl Property for C12 {
                     let mut w = words.clone();
                     w.remove(i);
                     out.push(mk(w.join(" "), &tc));
+                }
+            }
+            // character level: halves, then single characters (keeps blanks of every kind where they are)
+            let chars: Vec<char> = tc.text.chars().collect();
+            if chars.len() > 1 {
+                out.push(mk(chars[..chars.len() / 2].iter().collect(), &tc));
+                out.push(mk(chars[chars.len() / 2..].iter().collect(), &tc));
+                if chars.len() <= 40 {
+                    for i in 0..chars.len() {
+                        let mut c2 = chars.clone();
+                        c2.remove(i);
+                        out.push(mk(c2.into_iter().collect(), &tc));
+                    }
                 }
             }
             if tc.hyph {
